@@ -71,6 +71,7 @@ pub fn unit_count(prop: &str, tier: Tier) -> u64 {
         "C03" => (40_000, 4_000_000),
         "C04" => (40_000, 4_000_000),
         "C05" => (40_000, 4_000_000),
+        "C06" => (30_000, 3_000_000),
         "C07" => (8_000, 600_000),
         "C08" => (8_000, 500_000),
         "C09" => (40_000, 4_000_000),
